@@ -400,17 +400,50 @@ def m_unhexlify(it, a, k):
     ok, b = lawbook(it.ctx).unhexlify(t)
     if not it.branch(ok):
         it.raise_(binascii.Error, "Odd-length string / Non-hexadecimal digit found")
-    return SeqVal("byte", b, "bytes")
+    r = SeqVal("byte", b, "bytes")
+    r.hexsrc = t  # the bytes are unhexlify(t): word access can stay on the text level
+    return r
 
 
 def m_hexlify(it, a, k):
     if ops.all_concrete(a):
         return it.raw_native(binascii.hexlify, a, k)
     v = a[0]
+    pw = getattr(v, "packed_words", None)
+    if pw is not None:
+        return HexBytes(le16hex_term(it, pw))
     t = ops._seq_term(v)
     h = lawbook(it.ctx).hexlify(t)
     # hexlify returns bytes made of ASCII hex digits; we keep it as text and make decode() the identity
     return HexBytes(h)
+
+
+_LE16 = {}
+
+
+def le16hex_term(it, words):
+    """hexlify(struct.pack('<nH', *words)) as text: one uninterpreted function per arity, with the H-laws
+    (length 4n, hex digits only, and unpacking it gives the words back)."""
+    from .laws import py_rstrip, py_unhex_ok, s_contains, SEP_CHARS
+    from .core import s_len, strlit
+
+    n = len(words)
+    f = _LE16.get(n)
+    if f is None:
+        f = z3.Function(f"le16hex{n}", *([INT] * n + [STR]))
+        _LE16[n] = f
+    t = f(*words)
+    lb = lawbook(it.ctx)
+    if lb._once("le16hex", t):
+        c = it.ctx
+        c.add_fact(s_len(t) == 4 * n)
+        c.add_fact(py_unhex_ok(t))
+        c.add_fact(py_rstrip(t) == t)
+        for ch in SEP_CHARS:
+            c.add_fact(z3.Not(s_contains(t, strlit(ch))))
+        for i, w in enumerate(words):
+            c.add_fact(hex_word_uf(t, z3.IntVal(i)) == w)
+    return t
 
 
 class HexBytes:
@@ -428,13 +461,29 @@ def _word_le(b, i):
     return lo + 256 * hi
 
 
+hex_word_uf = z3.Function("hex_word", STR, INT, INT)  # word i (little endian) of unhexlify(s)
+
+
 def m_struct_unpack(it, a, k):
     fmt, data = a
-    if ops.all_concrete(a):
-        return it.raw_native(struct.unpack, a, k)
+    fmt = ops.force(fmt)
+    if ops.all_concrete([fmt, data]):
+        return it.raw_native(struct.unpack, [fmt, data], k)
     if not isinstance(fmt, str):
         raise Unsupported("symbolic struct format")
     n = _parse_fmt(fmt)
+    src = getattr(data, "hexsrc", None)
+    if src is not None:
+        # bytes = unhexlify(src) (already known to be well-formed hex): len(bytes) = len(src) / 2
+        lb = lawbook(it.ctx)
+        if not it.branch(lb.length(src) == 4 * n):
+            it.raise_(struct.error, f"unpack requires a buffer of {2 * n} bytes")
+        out = []
+        for i in range(n):
+            w = hex_word_uf(src, z3.IntVal(i))
+            it.ctx.add_fact(z3.And(w >= 0, w <= 65535))
+            out.append(ops.mk("int", w))
+        return tuple(out)
     t = ops._seq_term(data)
     if not it.branch(z3.Length(t) == 2 * n):
         it.raise_(struct.error, f"unpack requires a buffer of {2 * n} bytes")
@@ -478,7 +527,7 @@ def m_struct_pack(it, a, k):
         hi = z3.Int2BV(tv / 256, 8)
         t = z3.Concat(t, z3.Unit(lo), z3.Unit(hi))
     r = SeqVal("byte", z3.simplify(t), "bytes")
-    r.packed_words = [lift(ops.specialize(it, v))[1] for v in vals]
+    r.packed_words = [(z3.If(lift(v)[1], 1, 0) if lift(v)[0] == "bool" else lift(v)[1]) for v in [ops.specialize(it, v) for v in vals]]
     return r
 
 
